@@ -804,6 +804,7 @@ impl Visitor<Diagnostic> for LibraryRenderer {
         for stmt in node.body.iter() {
             self.visit_stmt_kind(stmt)?;
         }
+        self.write_empty_statement_when_empty(&node.body);
         self.outdent();
 
         self.write_ws("END_FUNCTION");
@@ -1154,6 +1155,15 @@ impl Visitor<Diagnostic> for LibraryRenderer {
     }
 
     // 3.2.3
+    fn visit_statements(&mut self, node: &dsl::textual::Statements) -> Result<Self::Value, Diagnostic> {
+        for item in node.body.iter() {
+            self.visit_stmt_kind(item)?;
+        }
+        // A body of empty statements is a statement list, not a missing body.
+        self.write_empty_statement_when_empty(&node.body);
+        Ok(())
+    }
+
     fn visit_stmt_kind(&mut self, node: &dsl::textual::StmtKind) -> Result<Self::Value, Diagnostic> {
         match node {
             dsl::textual::StmtKind::Return => {
